@@ -58,7 +58,8 @@ def _f4_atoms(mi):
     adj = mi.adjacency()
     out = set()
     for a in mi.atoms:
-        if a.aromatic and a.element in ("C", "Si") and a.charge == -1 and a.bracket and not a.hcount:
+        # (aromatic = takes part in aromatic bonds; the atom may be written in upper case with ':' bonds)
+        if a.element in ("C", "Si") and a.charge == -1 and a.bracket and not a.hcount:
             na = sum(1 for b in adj[a.idx] if mi.bonds[(min(a.idx, b), max(a.idx, b))] == 1.5)
             if na == 2:
                 out.add(a.idx)
@@ -99,8 +100,11 @@ class Arom(object):
                 ctx.see("kinds", k)
         for k in range(nspell):
             try:
+                uc = rng.random() < 0.1
                 s, order, _, _ = spell(m, rng, variants=rng.random() < 0.5, mix_labels=rng.random() < 0.2,
-                                       spanning=rng.choice(["dfs", "dfs", "dfs", "random"]))
+                                       spanning=rng.choice(["dfs", "dfs", "dfs", "random"]), upper_colon=uc)
+                if uc:
+                    ctx.count("spellings_upper_case_with_colon_bonds")
             except ValueError:
                 break
             payload = {"smiles": s, "class": cls, "kinds": sorted(set(k_ for k_ in kind_of if k_)), "src": src}
@@ -186,8 +190,9 @@ class Arom(object):
             Pw = {inv[g] for g in P}
             Uw = {inv[g] for g in unknown}
             err = None
+            in_system = set(x for kx, o in mi.bonds.items() if o == 1.5 for x in kx)
             for a in mi.atoms:
-                if not a.aromatic:
+                if a.idx not in in_system:
                     continue
                 if a.idx in Uw:
                     if dbl[a.idx] > 1:
@@ -204,7 +209,7 @@ class Arom(object):
             if err:
                 if f4_state and f4_state.get("consistent"):
                     f4_state["consistent"] = all(dbl[a.idx] == (1 if a.idx in f4_state["P"] else 0)
-                                                 for a in mi.atoms if a.aromatic)
+                                                 for a in mi.atoms if a.idx in in_system)
                 blame("wrong-pi-assignment", err, {"output": d[1]})
             outcomes.append((True, frozenset(order[i] for i in range(len(mi.atoms)) if dbl[i])))
         # order independence over the spellings of this molecule
